@@ -97,6 +97,10 @@ fn directed_asts() -> Vec<(RangeAst, Spelling)> {
     }
     let mut add = |alts: Vec<Alt>| v.push((RangeAst { alts }, plain.clone()));
     add(vec![set(vec![(Op::Caret, p1(0))])]);
+    // K4: `^0` has no stored lower bound; visible only next to a `*` alternative (both readings reject)
+    add(vec![set(vec![(Op::Bare, Partial { comps: vec![Xr::Wild('*')], pre: vec![], build: vec![] })]), set(vec![(Op::Le, p3p(0, 0, 0, "0.0")), (Op::Caret, p1(0))])]);
+    // `<x` with an opt-in on 0.0.0 (fixed: b53ee20)
+    add(vec![set(vec![(Op::Le, p3p(0, 0, 0, "0")), (Op::Lt, Partial { comps: vec![Xr::Wild('x')], pre: vec![], build: vec![] })])]);
     add(vec![set(vec![(Op::Gt, Partial { comps: vec![Xr::Wild('x')], pre: vec![], build: vec![] })])]);
     add(vec![set(vec![(Op::Gt, Partial { comps: vec![n(1), Xr::Wild('x'), n(3)], pre: vec![], build: vec![] })])]);
     let _ = DIRECTED;
